@@ -1,6 +1,10 @@
 package main
 
 func init() {
+	reg("C13", propCfg{Pkg: "props", Quick: tierCfg{8, 400}, Thorough: tierCfg{14, 12000}})
+	reg("C07", propCfg{Pkg: "props", Quick: tierCfg{12, 120}, Thorough: tierCfg{14, 4000}})
+	reg("C20", propCfg{Pkg: "props", Race: true, Quick: tierCfg{12, 25}, Thorough: tierCfg{14, 1200}})
+	reg("C17", propCfg{Pkg: "props", Quick: tierCfg{12, 30}, Thorough: tierCfg{14, 500}})
 	reg("C05", propCfg{Pkg: "props", Quick: tierCfg{12, 8}, Thorough: tierCfg{14, 100}})
 	reg("C04", propCfg{Pkg: "props", Quick: tierCfg{12, 10}, Thorough: tierCfg{14, 150}})
 	reg("C16", propCfg{Pkg: "props", Quick: tierCfg{8, 700}, Thorough: tierCfg{14, 30000}})
